@@ -5,6 +5,7 @@ import CookModel.Lemmas.TrailingSpace
 import CookModel.Lemmas.RecipeSimStatic
 import CookModel.Lemmas.RecipeSimBlank
 import CookModel.Lemmas.TrailInst
+import CookModel.Lemmas.LooseServings
 /-
   C17, audit wave (tag `a17`):
 
@@ -333,6 +334,8 @@ structure SameCol (ws : Char → Bool) (c' c : Col α) : Prop where
   inlineQ : c'.inlineQ = c.inlineQ
   metaMap : c'.metaMap = c.metaMap
   frontMatter : OptRel A17FmSame c'.frontMatter c.frontMatter
+  /-- wave 5: the servings derived from the metadata -/
+  servings : c'.servings = c.servings
 
 /-- **The comparison the property states** for two results of `parse`: a recipe on both sides or
     on neither, the recipes the same up to white space in step text, the reports with diagnostics
@@ -343,16 +346,18 @@ structure SameRecipe (ws : Char → Bool) (r' r : AnalysisResult α) : Prop wher
   diags : r'.diags.toList.map a17Sig = r.diags.toList.map a17Sig
 
 theorem SameCol.a17_refl (ws : Char → Bool) (c : Col α) : SameCol ws c c :=
-  ⟨LRel.refl_of (LooseSection.refl ws) _, rfl, rfl, rfl, rfl, rfl, OptRel.refl_of (A := A17FmSame) (fun _ => rfl) _⟩
+  ⟨LRel.refl_of (LooseSection.refl ws) _, rfl, rfl, rfl, rfl, rfl, OptRel.refl_of (A := A17FmSame) (fun _ => rfl) _, rfl⟩
 
 theorem SameCol.a17_symm {ws : Char → Bool} {a b : Col α} (h : SameCol ws a b) : SameCol ws b a :=
   ⟨LRel.a17_symm (R := LooseSection ws) (R' := LooseSection ws) (fun _ _ => LooseSection.a17_symm) h.sections, h.ingredients.symm, h.cookware.symm, h.timers.symm,
-   h.inlineQ.symm, h.metaMap.symm, OptRel.a17_symm (A := A17FmSame) (A' := A17FmSame) (fun _ _ e => Eq.symm e) h.frontMatter⟩
+   h.inlineQ.symm, h.metaMap.symm, OptRel.a17_symm (A := A17FmSame) (A' := A17FmSame) (fun _ _ e => Eq.symm e) h.frontMatter,
+   h.servings.symm⟩
 
 theorem SameCol.a17_trans {ws : Char → Bool} {a b c : Col α} (h1 : SameCol ws a b) (h2 : SameCol ws b c) : SameCol ws a c :=
   ⟨LRel.a17_trans (R := LooseSection ws) (fun _ _ _ => LooseSection.a17_trans) h1.sections h2.sections, h1.ingredients.trans h2.ingredients,
    h1.cookware.trans h2.cookware, h1.timers.trans h2.timers, h1.inlineQ.trans h2.inlineQ, h1.metaMap.trans h2.metaMap,
-   OptRel.a17_trans (A := A17FmSame) (fun _ _ _ e1 e2 => Eq.trans e1 e2) h1.frontMatter h2.frontMatter⟩
+   OptRel.a17_trans (A := A17FmSame) (fun _ _ _ e1 e2 => Eq.trans e1 e2) h1.frontMatter h2.frontMatter,
+   h1.servings.trans h2.servings⟩
 
 theorem SameRecipe.a17_refl (ws : Char → Bool) (r : AnalysisResult α) : SameRecipe ws r r :=
   ⟨OptRel.refl_of (A := SameCol ws) (SameCol.a17_refl ws) _, rfl⟩
@@ -384,7 +389,7 @@ theorem SameRecipe.a17_valid {ws : Char → Bool} {a b : AnalysisResult α} (h :
 /-- every strict result implies the comparison of the property -/
 theorem a17_colSim_same {uws : Char → Bool} (ws : Char → Bool) {c' c : Col α} (h : ColSim uws c' c) : SameCol ws c' c :=
   ⟨by rw [h.sections]; exact LRel.refl_of (LooseSection.refl ws) _, by rw [h.ingredients], by rw [h.cookware],
-   by rw [h.timers], h.inlineQ, h.metaMap, h.frontMatter.a17_mono (fun _ _ => a17_fmSim_same)⟩
+   by rw [h.timers], h.inlineQ, h.metaMap, h.frontMatter.a17_mono (fun _ _ => a17_fmSim_same), h.servings⟩
 
 theorem a17_resSim_same {uws : Char → Bool} (ws : Char → Bool) {r' r : AnalysisResult α} (h : ResSim uws r' r) :
     SameRecipe ws r' r :=
@@ -411,6 +416,7 @@ theorem a17_insertion_same (env : Env) (ws : Char → Bool) (pre' pre : List Tok
   rw [e', e]
   refine ⟨?_, hd⟩
   show SameCol ws c' c
-  exact ⟨hs, hi, hc, ht, hq, hm, by rw [hf]; exact OptRel.refl_of (A := A17FmSame) (fun _ => rfl) _⟩
+  exact ⟨hs, hi, hc, ht, hq, hm, by rw [hf]; exact OptRel.refl_of (A := A17FmSame) (fun _ => rfl) _,
+    bl17_insertion_servings env ws pre' pre doc' doc h' h hins c' c (by rw [e']) (by rw [e])⟩
 
 end Cook
